@@ -135,9 +135,13 @@ def shapes(tier):
         # ntheta = 12: neither the fine nor the coarse angular count is a power of two (the index wrap takes its general
         # branch on both grids; seed C08-2 inlined a power-of-two mask in the optimised prolongation)
         return [(5, 8, 2, 1, False), (7, 8, 3, 2, True), (9, 4, 4, 2, False), (5, 8, 0, 0, True), (7, 4, 7, 4, False), (11, 8, 6, 4, True), (13, 4, 8, 3, False),
-                (7, 12, 3, 2, False), (5, 12, 2, 1, True), (7, 20, 7, 4, False)]
+                (7, 12, 3, 2, False), (5, 12, 2, 1, True), (7, 20, 7, 4, False),
+                # the interior fast paths (0 < i_r_coarse < nsc_coarse - 1 on circles, nsc_coarse < i_r_coarse < nr_coarse - 1 on
+                # radial lines) on a grid whose angular spacings do not repeat after +-2 steps (ntheta = 12: period 6; with 8
+                # divisions the antipodal pairing makes spacing(i+2) == spacing(i-2) and hides a wrong sign; seed C08-5)
+                (11, 12, 4, 2, False), (11, 12, 8, 4, True)]
     out = []
-    for nr in (5, 7, 9):
+    for nr in (5, 7, 9, 11):
         for nt in (4, 8, 12):
             for nscf, nscc in ((2, 1), (3, 2), (0, 0), (nr, (nr + 1) // 2), (4, 1)):
                 if nscf <= nr and nscc <= (nr + 1) // 2:
